@@ -254,6 +254,32 @@ def handleObj (st : DState) (parts : List String) : Option (DState × String) :=
         some (st, "M=" ++ fl ++ " V=" ++ (match v with | some x => showVal x | none => "-"))
       | none => some (st, "bad-op")
     | _, _, _ => some (st, "bad-op")
+  | ["roundtrip", f, aid, tid, ln, ind, val] =>
+    match parseNat aid, parseNat tid, parseHex ind with
+    | some ai, some ti, some indent =>
+      match st.atlases.lookup ai, parseValue st.types ti val with
+      | some a, some v =>
+        let fmt : Fmt := if f == "cbor" then .cbor else .json
+        let spec := " S=" ++ showVal (normV fmt st.types a trLib st.it 100000 ti v)
+        let mo := marshalV st.types a trLib 100000 ti v
+        match mo.fail with
+        | some _ => some (st, "M=-/-/err" ++ spec)
+        | none =>
+          let line : Option Bytes := if ln == "nil" then none else parseHex ln
+          let (fl, ws) := if f == "cbor" then runOut CborEnc.step CborEnc.init mo.toks
+                          else runOut (JsonEnc.step ⟨line, indent⟩ FloatText.jsonFloat) JsonEnc.init mo.toks
+          if fl.getLast? != some Flag.done then some (st, "M=-/-/err" ++ spec) else
+          let bytes := ws.flatten
+          let (dtoks, dok) := if f == "cbor" then
+              let o := CborDec.decode false (Rd.ofBytes bytes); (o.toks, o.res.isOk)
+            else
+              let o := JsonDec.decode (Rd.ofBytes bytes); (o.toks, o.res.isOk)
+          if !dok then some (st, "M=" ++ hexOrDash bytes ++ "/-/err" ++ spec) else
+          match unmV st.types a trLib st.it 100000 ti (zeroVal st.types 64 ti) dtoks with
+          | .ok rv [] _ => some (st, "M=" ++ hexOrDash bytes ++ "/" ++ showVal rv ++ "/ok" ++ spec)
+          | _ => some (st, "M=" ++ hexOrDash bytes ++ "/-/err" ++ spec)
+      | _, _ => some (st, "bad-op")
+    | _, _, _ => some (st, "bad-op")
   | ["marshal", aid, tid, _viaPtr, val] =>
     match parseNat aid, parseNat tid with
     | some ai, some ti =>
